@@ -1,8 +1,641 @@
-(* Properties_C15 (under construction): statements only. *)
-From Coq Require Import List NArith Bool.
-From NngV Require Import Proto.Common Proto.PollModel.
+(* Properties_C15: non-blocking calls never block; poll descriptors mirror readiness.
+   Statements only (proofs are `exact <lemma>`); definitions of the clauses are in
+   Proto/PollModel.v, the packs with the current source's repairs in Proto/PollTable.v.
+
+   Reading guide.  For a protocol pack M (state, init, step, poll, environment
+   contract, invariant):
+     C15_nb_immediate M   every NONBLOCK send/receive, in every reachable state, emits exactly one
+                          completion of its aio in the same step, the aio is not queued, a receive
+                          carries a message iff it succeeded, and a failed send left the message with
+                          the caller (the whole step is independent of the message)
+     C15_nb_possible M    where the blocking form would succeed at once the NONBLOCK form does exactly
+                          the same (so it does not answer NNG_EAGAIN)
+     C15_nb_strict M      NNG_EAGAIN is answered only where the blocking form would have been queued
+     C15_mirror M         (the property's words) the operation would succeed => descriptor raised;
+                          descriptor raised => the operation does not answer NNG_EAGAIN; no descriptor
+                          => NNG_ENOTSUP -- for both descriptors, in every reachable state
+     C15_mirror_exact M   raised <-> the operation would succeed
+     C15_mirror_iff M     raised <-> the operation would not answer NNG_EAGAIN (DESIGN's form)
+   `reachable` = any history of steps that respects the environment contract and does not close
+   the socket.  "_now" = the pack with the repairs found in the source on this run.
+   [now b P] = P if the source has the repair b, ~ P if it has not.
+
+   Which strengthenings are FALSE and why (none of them is required by the property text):
+     * C15_nb_strict, REP and RESPONDENT: a context with a receive already pending answers NNG_EAGAIN
+       to a NONBLOCK receive where the blocking form answers NNG_ESTATE at once (send half holds).
+     * C15_mirror_iff, every protocol with a state machine (REQ, REP, SURVEYOR, RESPONDENT): an
+       operation the state machine forbids answers NNG_ESTATE with the descriptor down.
+     * C15_mirror_exact, REP / RESPONDENT: the socket's previous reply is still queued behind a busy
+       pipe and a new request arrived from an idle one: descriptor raised, send answers NNG_ESTATE;
+       SURVEYOR: responses queued when the survey expires keep the descriptor raised, receive
+       answers NNG_ESTATE.  (Replayed on the library: it behaves like the model.)
+   Recorded, unrepaired defects of the source (findings/known_findings.txt) show as [now false _]:
+     * BUS: bus0_sock_send calls nni_aio_start, which refuses every NONBLOCK send (key
+       bus-nonblock-send-eagain): C15_nb_possible and C15_mirror are false of the source.
+     * RESPONDENT: resp0_ctx_send calls nni_aio_start before it looks at its state (key
+       respondent-nb-send-eagain): C15_nb_possible and C15_mirror (send half) are false. *)
+From Coq Require Import List NArith Bool ZArith.
+From NngV Require Proto.ReqModel Proto.RepModel Proto.RepProofs Proto.XReqModel Proto.RespondModel Proto.PairModel Proto.PushModel.
+From NngV Require Import Gen.Consts Proto.Common Proto.PollModel Proto.PollProofs Proto.PollPipeline Proto.PollPubSub
+  Proto.PollReq Proto.PollRepX Proto.PollSurvey Proto.PollPairBus Proto.PollTable.
 Import ListNotations.
 
-Theorem pollable_level_stub : plb_readable (plb_run plb_init [PlRaise; PlGetFd]) = Some true.
-Proof. reflexivity. Qed.
-Print Assumptions pollable_level_stub.
+(* ================================================================== pollable.c *)
+Theorem pollable_level : forall ops,
+  match plb_readable (plb_run plb_init ops) with
+  | Some sig => In PlGetFd ops /\ sig = plb_level false ops
+  | None => ~ In PlGetFd ops
+  end.
+Proof. exact plb_level_holds. Qed.
+Print Assumptions pollable_level.
+
+Theorem pollable_level_whenever_first_requested : forall ops1 ops2,
+  plb_mutators ops1 = plb_mutators ops2 -> In PlGetFd ops1 -> In PlGetFd ops2 ->
+  plb_readable (plb_run plb_init ops1) = plb_readable (plb_run plb_init ops2) /\
+  plb_readable (plb_run plb_init ops1) = Some (plb_level false (plb_mutators ops1)).
+Proof. exact plb_level_any_time. Qed.
+Print Assumptions pollable_level_whenever_first_requested.
+
+Theorem pollable_calls_without_overlap_are_the_sequential_model : forall ops p,
+  plb_arun false (mkPlc p PcIdle PcIdle) (flat_map seq_acts ops) = mkPlc (plb_run p ops) PcIdle PcIdle.
+Proof. exact plb_sequential_refines. Qed.
+Print Assumptions pollable_calls_without_overlap_are_the_sequential_model.
+
+Theorem pollable_level_first_getfd_racing_raise_holds : forall l,
+  Forall (fun a => In a acts_noclear) l ->
+  let c := plb_arun false plc_init l in
+  plc_quiescent c -> match plb_fd (pc_p c) with None => True | Some sig => sig = plb_raised (pc_p c) end.
+Proof. exact plb_concurrent_raise_holds. Qed.
+Print Assumptions pollable_level_first_getfd_racing_raise_holds.
+
+(* the form of nni_pollable_getfd the tree was pinned with *)
+Theorem pollable_level_first_getfd_racing_clear_refuted :
+  exists l, Forall (fun a => In a acts_all) l /\
+    let c := plb_arun false plc_init l in
+    plc_quiescent c /\ plb_raised (pc_p c) = false /\ plb_fd (pc_p c) = Some true /\
+    plb_fd (pc_p (plb_arun false c [ActMut PlClear; ActMutStep; ActMutStep])) = Some true.
+Proof. exact plb_concurrent_clear_refuted. Qed.
+Print Assumptions pollable_level_first_getfd_racing_clear_refuted.
+
+(* the form the source has now (C15_POLLABLE_GETFD_SYNC): every interleaving of one raise/clear thread with the first getfd *)
+Theorem pollable_level_concurrent_now : now C15_POLLABLE_GETFD_SYNC (plb_conc_level C15_POLLABLE_GETFD_SYNC).
+Proof. exact (plb_conc_level_by_form C15_POLLABLE_GETFD_SYNC). Qed.
+Print Assumptions pollable_level_concurrent_now.
+
+(* ================================================================== nng.c: NNG_FLAG_NONBLOCK *)
+Theorem nonblock_sendmsg_never_waits_keeps_message_on_failure : forall msg pr,
+  let '(rv, kept, waited) := api_sendmsg true msg pr in
+  waited = false /\ (kept = true <-> rv <> E_OK) /\
+  match pr with
+  | PrStart _ _ => rv = E_AGAIN /\ kept = true
+  | PrDone r _ => rv = (if N.eqb r E_TIMEDOUT then E_AGAIN else r)
+  end.
+Proof. exact api_sendmsg_nonblock. Qed.
+Print Assumptions nonblock_sendmsg_never_waits_keeps_message_on_failure.
+
+Theorem nonblock_recvmsg_never_waits : forall pr,
+  let '(rv, got, waited) := api_recvmsg true pr in
+  waited = false /\ (got <> None -> rv = E_OK) /\
+  match pr with
+  | PrStart _ _ => rv = E_AGAIN /\ got = None
+  | PrDone r m => rv = (if N.eqb r E_TIMEDOUT then E_AGAIN else r) /\ (r = E_OK -> got = m)
+  end.
+Proof. exact api_recvmsg_nonblock. Qed.
+Print Assumptions nonblock_recvmsg_never_waits.
+
+Theorem nonblock_flag_matters_only_where_the_protocol_waits : forall msg rv m,
+  api_sendmsg true msg (PrDone rv m) = (api_map true rv, negb (N.eqb rv 0), false) /\
+  api_sendmsg false msg (PrDone rv m) = (rv, negb (N.eqb rv 0), false) /\
+  api_recvmsg true (PrDone rv m) = (api_map true rv, (if N.eqb rv 0 then m else None), false) /\
+  api_recvmsg false (PrDone rv m) = (rv, (if N.eqb rv 0 then m else None), false).
+Proof. exact api_nonblock_same_when_ready. Qed.
+Print Assumptions nonblock_flag_matters_only_where_the_protocol_waits.
+
+Theorem nng_send_frees_exactly_its_own_copy_on_failure : forall nb body pr,
+  let '(rv, freed, waited) := api_send nb body pr in
+  (rv <> E_OK -> freed = [mkPmsg [] body]) /\ (rv = E_OK -> freed = []).
+Proof. exact api_send_frees_own_copy. Qed.
+Print Assumptions nng_send_frees_exactly_its_own_copy_on_failure.
+
+Theorem nonblock_api_over_a_protocol_step : forall a outs rv x msg,
+  compl_of a outs = [(rv, x)] -> rv <> E_TIMEDOUT ->
+  api_sendmsg true msg (reply_of_step a outs) = (rv, negb (N.eqb rv 0), false) /\
+  api_recvmsg true (reply_of_step a outs) = (rv, (if N.eqb rv 0 then x else None), false).
+Proof. exact api_over_model. Qed.
+Print Assumptions nonblock_api_over_a_protocol_step.
+
+(* ================================================================== the packs run the daemon's step functions *)
+Theorem c15_packs_are_the_extracted_models :
+  pm_step Req_now = c15_req_step /\ pm_step Rep_now = c15_rep_step /\ pm_step XReq_now = c15_xreq_step /\
+  pm_step XRep_now = c15_xrep_step /\ pm_step Pub_now = c15_pub_step /\ pm_step Sub_now = c15_sub_step /\
+  pm_step XSub_now = c15_xsub_step /\ pm_step Push_now = c15_push_step /\ pm_step Pull_now = c15_pull_step /\
+  pm_step Surv_now = c15_surv_step /\ pm_step Resp_now = c15_resp_step /\ pm_step XSurv_now = c15_xsurv_step /\
+  pm_step XResp_now = c15_xresp_step /\ pm_step Pair0_now = c15_pair0_step /\ pm_step Pair1_now = c15_pair1_step /\
+  pm_step Pair1raw_now = c15_pair1raw_step /\ (forall raw, pm_step (Bus_now raw) = c15_bus_step).
+Proof. exact now_steps. Qed.
+Print Assumptions c15_packs_are_the_extracted_models.
+
+(* ================================================================== the protocols
+   Per protocol P:  P_c15 = the three clauses of the property for the source as it is now
+   (P_nb_immediate, P_nb_succeeds_if_possible, P_poll_mirror are its components, named below it);
+   P_c15_more = the reachable-state invariant, the stronger readings where they hold, the
+   `_refuted` witnesses where they do not, and the `_refuted` forms of the tree as first pinned. *)
+Theorem req_c15 :
+  C15_nb_immediate Req_now /\
+  C15_nb_possible Req_now /\
+  C15_mirror Req_now.
+Proof. split; [apply (req_c15_nb_immediate c15_req_fix); reflexivity|]. split; [apply (req_c15_nb_possible c15_req_fix); reflexivity|]. apply (req_c15_mirror c15_req_fix); reflexivity. Qed.
+Print Assumptions req_c15.
+Definition req_nb_immediate : C15_nb_immediate Req_now := proj1 req_c15.
+Definition req_nb_succeeds_if_possible : C15_nb_possible Req_now := proj1 (proj2 req_c15).
+Definition req_poll_mirror : C15_mirror Req_now := proj2 (proj2 req_c15).
+
+(* req_reachable_invariant *)
+(* req_nb_eagain_only_where_blocking_waits *)
+(* req_poll_mirror_exact_partial: PARTIAL for the pack without a resource bound: the exact form (raised <-> would
+   succeed) for the receive descriptor in full, for the send descriptor except where a send answers NNG_ENOMEM (a state
+   with 2^31 live request ids is reachable in principle when nothing bounds the number of contexts).
+   req_poll_mirror_exact_bounded: FULL under the contract that fewer than 2^31 - 1 contexts are opened (M_req_b: same
+   step function, contract = M_req's plus that bound); every reachable state of M_req_b is a reachable state of M_req.
+   C15_mirror (req_poll_mirror) needs no bound. *)
+(* req_poll_mirror_iff_refuted: not a defect: a receive before any request answers NNG_ESTATE, descriptor down *)
+(* req_poll_mirror_pinned_refuted: the tree as pinned (repaired by 8784c89) *)
+Theorem req_c15_more :
+  C15_inv Req_now /\
+  C15_nb_strict Req_now /\
+  (forall s, reachable Req_now s ->
+    mirror_r_exact_at Req_now s /\
+    (forall a m, pm_ok Req_now s (PSend None a true m) -> rv_send Req_now s a m <> Some E_NOMEM ->
+       match poll_w (pm_poll Req_now s) with
+       | None => rv_send Req_now s a m = Some E_NOTSUP
+       | Some b => b = true <-> rv_send Req_now s a m = Some E_OK
+       end)) /\
+  C15_mirror_exact (M_req_b c15_req_fix) /\
+  (forall s, reachable (M_req_b c15_req_fix) s -> reachable Req_now s) /\
+  ~ C15_mirror_iff Req_now /\
+  (forall fx, ReqModel.fx_rdclr fx = false -> ~ C15_mirror (M_req fx)).
+Proof. split; [apply (req_c15_inv c15_req_fix); reflexivity|]. split; [apply (req_c15_nb_strict c15_req_fix); reflexivity|]. split; [apply (req_c15_mirror_exact_partial c15_req_fix); reflexivity|]. split; [apply (reqb_c15_mirror_exact c15_req_fix); reflexivity|]. split; [exact (reqb_reachable_req c15_req_fix)|]. split; [exact (req_c15_mirror_iff_refuted c15_req_fix)|]. exact (req_c15_mirror_refuted_without_rdclr). Qed.
+Print Assumptions req_c15_more.
+
+(* rep_poll_mirror: holds since fix ca9024c (found by this property's check) *)
+Theorem rep_c15 :
+  C15_nb_immediate Rep_now /\
+  C15_nb_possible Rep_now /\
+  C15_mirror Rep_now.
+Proof. split; [exact (rep_c15_nb_immediate c15_rep_fix)|]. split; [exact (rep_c15_nb_possible c15_rep_fix)|]. apply (rep_c15_mirror c15_rep_fix); reflexivity. Qed.
+Print Assumptions rep_c15.
+Definition rep_nb_immediate : C15_nb_immediate Rep_now := proj1 rep_c15.
+Definition rep_nb_succeeds_if_possible : C15_nb_possible Rep_now := proj1 (proj2 rep_c15).
+Definition rep_poll_mirror : C15_mirror Rep_now := proj2 (proj2 rep_c15).
+
+(* rep_reachable_invariant *)
+(* rep_nb_send_eagain_only_where_blocking_waits *)
+(* rep_nb_strict_refuted: not a defect: a context with a receive already pending -- NONBLOCK answers NNG_EAGAIN, blocking NNG_ESTATE *)
+(* rep_poll_mirror_recv_exact *)
+(* rep_poll_mirror_exact_refuted: not required by the property: previous reply still queued behind a busy pipe, new request from an idle pipe: raised, send answers NNG_ESTATE *)
+(* rep_poll_mirror_iff_refuted *)
+(* rep_poll_mirror_pinned_refuted: before fix ca9024c: GENUINE DEFECT found here (send descriptor raised while the socket's reply pipe is busy) *)
+Theorem rep_c15_more :
+  C15_inv Rep_now /\
+  (forall s, reachable Rep_now s -> nb_send_eagain_queues_at Rep_now s) /\
+  ~ C15_nb_strict Rep_now /\
+  (forall s, reachable Rep_now s -> mirror_r_exact_at Rep_now s) /\
+  ~ C15_mirror_exact Rep_now /\
+  ~ C15_mirror_iff Rep_now /\
+  ~ C15_mirror (M_rep (RepModel.mkPfix true true true false)).
+Proof. split; [apply (rep_c15_inv c15_rep_fix); reflexivity|]. split; [exact (rep_c15_nb_send_strict c15_rep_fix)|]. split; [exact (rep_c15_nb_strict_refuted c15_rep_fix)|]. split; [apply (rep_c15_mirror_r_exact c15_rep_fix); reflexivity|]. split; [exact (rep_c15_mirror_exact_refuted)|]. split; [exact (rep_c15_mirror_iff_refuted c15_rep_fix)|]. exact (rep_c15_mirror_refuted_pinned). Qed.
+Print Assumptions rep_c15_more.
+
+Theorem xreq_c15 :
+  C15_nb_immediate XReq_now /\
+  C15_nb_possible XReq_now /\
+  C15_mirror XReq_now.
+Proof. split; [apply (xreq_c15_nb_immediate c15_mq_fix); reflexivity|]. split; [apply (xreq_c15_nb_possible c15_mq_fix); reflexivity|]. apply (xreq_c15_mirror c15_mq_fix); reflexivity. Qed.
+Print Assumptions xreq_c15.
+Definition xreq_nb_immediate : C15_nb_immediate XReq_now := proj1 xreq_c15.
+Definition xreq_nb_succeeds_if_possible : C15_nb_possible XReq_now := proj1 (proj2 xreq_c15).
+Definition xreq_poll_mirror : C15_mirror XReq_now := proj2 (proj2 xreq_c15).
+
+(* xreq_reachable_invariant *)
+(* xreq_nb_eagain_only_where_blocking_waits *)
+(* xreq_poll_mirror_exact *)
+(* xreq_poll_mirror_iff *)
+(* xreq_poll_mirror_pinned_refuted: before fix e654d99: GENUINE DEFECT found here (nni_msgq_aio_get left blocked writers waiting although there is room) *)
+Theorem xreq_c15_more :
+  C15_inv XReq_now /\
+  C15_nb_strict XReq_now /\
+  C15_mirror_exact XReq_now /\
+  C15_mirror_iff XReq_now /\
+  ~ C15_mirror (M_xreq (XReqModel.mkMqfix true true false)).
+Proof. split; [apply (xreq_c15_inv c15_mq_fix); reflexivity|]. split; [apply (xreq_c15_nb_strict c15_mq_fix); reflexivity|]. split; [apply (xreq_c15_mirror_exact c15_mq_fix); reflexivity|]. split; [apply (xreq_c15_mirror_iff c15_mq_fix); reflexivity|]. exact (xreq_c15_mirror_refuted_pinned). Qed.
+Print Assumptions xreq_c15_more.
+
+Theorem xrep_c15 :
+  C15_nb_immediate XRep_now /\
+  C15_nb_possible XRep_now /\
+  C15_mirror XRep_now.
+Proof. split; [apply (xrep_c15_nb_immediate c15_mq_fix); reflexivity|]. split; [apply (xrep_c15_nb_possible c15_mq_fix); reflexivity|]. apply (xrep_c15_mirror c15_mq_fix); reflexivity. Qed.
+Print Assumptions xrep_c15.
+Definition xrep_nb_immediate : C15_nb_immediate XRep_now := proj1 xrep_c15.
+Definition xrep_nb_succeeds_if_possible : C15_nb_possible XRep_now := proj1 (proj2 xrep_c15).
+Definition xrep_poll_mirror : C15_mirror XRep_now := proj2 (proj2 xrep_c15).
+
+(* xrep_reachable_invariant *)
+(* xrep_nb_eagain_only_where_blocking_waits *)
+(* xrep_poll_mirror_exact *)
+(* xrep_poll_mirror_iff *)
+Theorem xrep_c15_more :
+  C15_inv XRep_now /\
+  C15_nb_strict XRep_now /\
+  C15_mirror_exact XRep_now /\
+  C15_mirror_iff XRep_now.
+Proof. split; [apply (xrep_c15_inv c15_mq_fix); reflexivity|]. split; [apply (xrep_c15_nb_strict c15_mq_fix); reflexivity|]. split; [apply (xrep_c15_mirror_exact c15_mq_fix); reflexivity|]. apply (xrep_c15_mirror_iff c15_mq_fix); reflexivity. Qed.
+Print Assumptions xrep_c15_more.
+
+Theorem pub_c15 :
+  C15_nb_immediate Pub_now /\
+  C15_nb_possible Pub_now /\
+  C15_mirror Pub_now.
+Proof. split; [exact (pub_c15_nb_immediate)|]. split; [exact (pub_c15_nb_possible)|]. exact (pub_c15_mirror). Qed.
+Print Assumptions pub_c15.
+Definition pub_nb_immediate : C15_nb_immediate Pub_now := proj1 pub_c15.
+Definition pub_nb_succeeds_if_possible : C15_nb_possible Pub_now := proj1 (proj2 pub_c15).
+Definition pub_poll_mirror : C15_mirror Pub_now := proj2 (proj2 pub_c15).
+
+(* pub_reachable_invariant *)
+(* pub_nb_eagain_only_where_blocking_waits *)
+(* pub_poll_mirror_exact *)
+(* pub_poll_mirror_iff *)
+Theorem pub_c15_more :
+  C15_inv Pub_now /\
+  C15_nb_strict Pub_now /\
+  C15_mirror_exact Pub_now /\
+  C15_mirror_iff Pub_now.
+Proof. split; [exact (pub_c15_inv)|]. split; [exact (pub_c15_nb_strict)|]. split; [exact (pub_c15_mirror_exact)|]. exact (pub_c15_mirror_iff). Qed.
+Print Assumptions pub_c15_more.
+
+Theorem sub_c15 :
+  C15_nb_immediate Sub_now /\
+  C15_nb_possible Sub_now /\
+  C15_mirror Sub_now.
+Proof. split; [exact (sub_c15_nb_immediate)|]. split; [exact (sub_c15_nb_possible)|]. exact (sub_c15_mirror). Qed.
+Print Assumptions sub_c15.
+Definition sub_nb_immediate : C15_nb_immediate Sub_now := proj1 sub_c15.
+Definition sub_nb_succeeds_if_possible : C15_nb_possible Sub_now := proj1 (proj2 sub_c15).
+Definition sub_poll_mirror : C15_mirror Sub_now := proj2 (proj2 sub_c15).
+
+(* sub_reachable_invariant *)
+(* sub_nb_eagain_only_where_blocking_waits *)
+(* sub_poll_mirror_exact *)
+(* sub_poll_mirror_iff *)
+(* sub_poll_mirror_pinned_refuted: the tree as pinned (repaired by 47b57d2) *)
+Theorem sub_c15_more :
+  C15_inv Sub_now /\
+  C15_nb_strict Sub_now /\
+  C15_mirror_exact Sub_now /\
+  C15_mirror_iff Sub_now /\
+  ~ C15_mirror (M_sub false).
+Proof. split; [exact (sub_c15_inv)|]. split; [exact (sub_c15_nb_strict)|]. split; [exact (sub_c15_mirror_exact)|]. split; [exact (sub_c15_mirror_iff)|]. exact (sub_c15_mirror_refuted_pinned). Qed.
+Print Assumptions sub_c15_more.
+
+Theorem xsub_c15 :
+  C15_nb_immediate XSub_now /\
+  C15_nb_possible XSub_now /\
+  C15_mirror XSub_now.
+Proof. split; [exact (xsub_c15_nb_immediate)|]. split; [exact (xsub_c15_nb_possible)|]. exact (xsub_c15_mirror). Qed.
+Print Assumptions xsub_c15.
+Definition xsub_nb_immediate : C15_nb_immediate XSub_now := proj1 xsub_c15.
+Definition xsub_nb_succeeds_if_possible : C15_nb_possible XSub_now := proj1 (proj2 xsub_c15).
+Definition xsub_poll_mirror : C15_mirror XSub_now := proj2 (proj2 xsub_c15).
+
+(* xsub_reachable_invariant *)
+(* xsub_nb_eagain_only_where_blocking_waits *)
+(* xsub_poll_mirror_exact *)
+(* xsub_poll_mirror_iff *)
+(* xsub_nb_succeeds_if_possible_pinned_refuted: the tree as pinned (repaired by fc1e6a0) *)
+Theorem xsub_c15_more :
+  C15_inv XSub_now /\
+  C15_nb_strict XSub_now /\
+  C15_mirror_exact XSub_now /\
+  C15_mirror_iff XSub_now /\
+  ~ C15_nb_possible (M_xsub false true).
+Proof. split; [exact (xsub_c15_inv)|]. split; [exact (xsub_c15_nb_strict)|]. split; [exact (xsub_c15_mirror_exact)|]. split; [exact (xsub_c15_mirror_iff)|]. exact (xsub_c15_nb_possible_refuted_pinned). Qed.
+Print Assumptions xsub_c15_more.
+
+Theorem push_c15 :
+  C15_nb_immediate Push_now /\
+  C15_nb_possible Push_now /\
+  C15_mirror Push_now.
+Proof. split; [exact (push_c15_nb_immediate)|]. split; [exact (push_c15_nb_possible)|]. exact (push_c15_mirror). Qed.
+Print Assumptions push_c15.
+Definition push_nb_immediate : C15_nb_immediate Push_now := proj1 push_c15.
+Definition push_nb_succeeds_if_possible : C15_nb_possible Push_now := proj1 (proj2 push_c15).
+Definition push_poll_mirror : C15_mirror Push_now := proj2 (proj2 push_c15).
+
+(* push_reachable_invariant *)
+(* push_nb_eagain_only_where_blocking_waits *)
+(* push_poll_mirror_exact *)
+(* push_poll_mirror_iff *)
+Theorem push_c15_more :
+  C15_inv Push_now /\
+  C15_nb_strict Push_now /\
+  C15_mirror_exact Push_now /\
+  C15_mirror_iff Push_now.
+Proof. split; [exact (push_c15_inv)|]. split; [exact (push_c15_nb_strict)|]. split; [exact (push_c15_mirror_exact)|]. exact (push_c15_mirror_iff). Qed.
+Print Assumptions push_c15_more.
+
+Theorem pull_c15 :
+  C15_nb_immediate Pull_now /\
+  C15_nb_possible Pull_now /\
+  C15_mirror Pull_now.
+Proof. split; [exact (pull_c15_nb_immediate)|]. split; [exact (pull_c15_nb_possible)|]. exact (pull_c15_mirror). Qed.
+Print Assumptions pull_c15.
+Definition pull_nb_immediate : C15_nb_immediate Pull_now := proj1 pull_c15.
+Definition pull_nb_succeeds_if_possible : C15_nb_possible Pull_now := proj1 (proj2 pull_c15).
+Definition pull_poll_mirror : C15_mirror Pull_now := proj2 (proj2 pull_c15).
+
+(* pull_reachable_invariant *)
+(* pull_nb_eagain_only_where_blocking_waits *)
+(* pull_poll_mirror_exact *)
+(* pull_poll_mirror_iff *)
+Theorem pull_c15_more :
+  C15_inv Pull_now /\
+  C15_nb_strict Pull_now /\
+  C15_mirror_exact Pull_now /\
+  C15_mirror_iff Pull_now.
+Proof. split; [exact (pull_c15_inv)|]. split; [exact (pull_c15_nb_strict)|]. split; [exact (pull_c15_mirror_exact)|]. exact (pull_c15_mirror_iff). Qed.
+Print Assumptions pull_c15_more.
+
+Theorem surveyor_c15 :
+  C15_nb_immediate Surv_now /\
+  C15_nb_possible Surv_now /\
+  C15_mirror Surv_now.
+Proof. split; [exact (surv_c15_nb_immediate)|]. split; [exact (surv_c15_nb_possible C07_SURV_NBRECV_FIXED)|]. exact (surv_c15_mirror). Qed.
+Print Assumptions surveyor_c15.
+Definition surveyor_nb_immediate : C15_nb_immediate Surv_now := proj1 surveyor_c15.
+Definition surveyor_nb_succeeds_if_possible : C15_nb_possible Surv_now := proj1 (proj2 surveyor_c15).
+Definition surveyor_poll_mirror : C15_mirror Surv_now := proj2 (proj2 surveyor_c15).
+
+(* surveyor_reachable_invariant *)
+(* surveyor_nb_eagain_only_where_blocking_waits *)
+(* surveyor_poll_mirror_exact_refuted: not required by the property: responses queued when the survey expires keep the descriptor raised; receive answers NNG_ESTATE *)
+(* surveyor_poll_mirror_iff_refuted *)
+(* surveyor_nb_immediate_pinned_refuted: the tree as pinned (repaired by 73ad6a8) *)
+Theorem surveyor_c15_more :
+  C15_inv Surv_now /\
+  C15_nb_strict Surv_now /\
+  ~ C15_mirror_exact Surv_now /\
+  ~ C15_mirror_iff Surv_now /\
+  ~ C15_nb_immediate (M_surv false).
+Proof. split; [exact (surv_c15_inv C07_SURV_NBRECV_FIXED)|]. split; [exact (surv_c15_nb_strict)|]. split; [exact (surv_c15_mirror_exact_refuted)|]. split; [exact (surv_c15_mirror_iff_refuted)|]. exact (surv_c15_nb_immediate_refuted_pinned). Qed.
+Print Assumptions surveyor_c15_more.
+
+(* respondent_nb_succeeds_if_possible_now: KNOWN unrepaired defect respondent-nb-send-eagain: false of the source while C07_RESP_NB_FIXED = false *)
+(* respondent_poll_mirror_now: KNOWN unrepaired defect respondent-nb-send-eagain *)
+Theorem respondent_c15 :
+  C15_nb_immediate Resp_now /\
+  now C07_RESP_NB_FIXED (C15_nb_possible Resp_now) /\
+  now C07_RESP_NB_FIXED (C15_mirror Resp_now).
+Proof. split; [exact (resp_nb_immediate_any C07_RESP_NB_FIXED)|]. split; [exact (resp_nb_possible_by_flag C07_RESP_NB_FIXED)|]. exact (resp_mirror_by_flag C07_RESP_NB_FIXED). Qed.
+Print Assumptions respondent_c15.
+Definition respondent_nb_immediate : C15_nb_immediate Resp_now := proj1 respondent_c15.
+Definition respondent_nb_succeeds_if_possible_now : now C07_RESP_NB_FIXED (C15_nb_possible Resp_now) := proj1 (proj2 respondent_c15).
+Definition respondent_poll_mirror_now : now C07_RESP_NB_FIXED (C15_mirror Resp_now) := proj2 (proj2 respondent_c15).
+
+(* respondent_reachable_invariant *)
+(* respondent_nb_recv_succeeds_if_possible *)
+(* respondent_poll_mirror_recv *)
+(* respondent_poll_mirror_holds_when_repaired *)
+(* respondent_nb_succeeds_if_possible_holds_when_repaired *)
+(* respondent_nb_send_strict_when_repaired *)
+(* respondent_nb_strict_refuted: not a defect: receive with one already pending *)
+(* respondent_poll_mirror_exact_refuted *)
+(* respondent_poll_mirror_iff_refuted *)
+Theorem respondent_c15_more :
+  C15_inv Resp_now /\
+  C15_nb_recv_possible Resp_now /\
+  C15_mirror_r Resp_now /\
+  C15_mirror (M_resp RespondModel.rfix_all) /\
+  C15_nb_possible (M_resp RespondModel.rfix_all) /\
+  (forall s, reachable (M_resp RespondModel.rfix_all) s -> nb_send_eagain_queues_at (M_resp RespondModel.rfix_all) s) /\
+  ~ C15_nb_strict (M_resp RespondModel.rfix_all) /\
+  ~ C15_mirror_exact (M_resp RespondModel.rfix_all) /\
+  ~ C15_mirror_iff (M_resp RespondModel.rfix_all).
+Proof. split; [exact (resp_inv_any C07_RESP_NB_FIXED)|]. split; [exact (resp_nb_recv_possible_any C07_RESP_NB_FIXED)|]. split; [exact (resp_mirror_r_any C07_RESP_NB_FIXED)|]. split; [exact (resp_c15_mirror)|]. split; [exact (resp_c15_nb_possible)|]. split; [exact (resp_c15_nb_send_strict)|]. split; [exact (resp_c15_nb_strict_refuted)|]. split; [exact (resp_c15_mirror_exact_refuted)|]. exact (resp_c15_mirror_iff_refuted). Qed.
+Print Assumptions respondent_c15_more.
+
+Theorem xsurveyor_c15 :
+  C15_nb_immediate XSurv_now /\
+  C15_nb_possible XSurv_now /\
+  C15_mirror XSurv_now.
+Proof. split; [exact (xsurv_c15_nb_immediate)|]. split; [exact (xsurv_c15_nb_possible)|]. exact (xsurv_c15_mirror). Qed.
+Print Assumptions xsurveyor_c15.
+Definition xsurveyor_nb_immediate : C15_nb_immediate XSurv_now := proj1 xsurveyor_c15.
+Definition xsurveyor_nb_succeeds_if_possible : C15_nb_possible XSurv_now := proj1 (proj2 xsurveyor_c15).
+Definition xsurveyor_poll_mirror : C15_mirror XSurv_now := proj2 (proj2 xsurveyor_c15).
+
+(* xsurveyor_reachable_invariant *)
+(* xsurveyor_nb_eagain_only_where_blocking_waits *)
+(* xsurveyor_poll_mirror_exact *)
+(* xsurveyor_poll_mirror_iff *)
+Theorem xsurveyor_c15_more :
+  C15_inv XSurv_now /\
+  C15_nb_strict XSurv_now /\
+  C15_mirror_exact XSurv_now /\
+  C15_mirror_iff XSurv_now.
+Proof. split; [exact (xsurv_c15_inv)|]. split; [exact (xsurv_c15_nb_strict)|]. split; [exact (xsurv_c15_mirror_exact)|]. exact (xsurv_c15_mirror_iff). Qed.
+Print Assumptions xsurveyor_c15_more.
+
+Theorem xrespondent_c15 :
+  C15_nb_immediate XResp_now /\
+  C15_nb_possible XResp_now /\
+  C15_mirror XResp_now.
+Proof. split; [exact (xresp_c15_nb_immediate)|]. split; [exact (xresp_c15_nb_possible)|]. exact (xresp_c15_mirror). Qed.
+Print Assumptions xrespondent_c15.
+Definition xrespondent_nb_immediate : C15_nb_immediate XResp_now := proj1 xrespondent_c15.
+Definition xrespondent_nb_succeeds_if_possible : C15_nb_possible XResp_now := proj1 (proj2 xrespondent_c15).
+Definition xrespondent_poll_mirror : C15_mirror XResp_now := proj2 (proj2 xrespondent_c15).
+
+(* xrespondent_reachable_invariant *)
+(* xrespondent_nb_eagain_only_where_blocking_waits *)
+(* xrespondent_poll_mirror_exact *)
+(* xrespondent_poll_mirror_iff *)
+Theorem xrespondent_c15_more :
+  C15_inv XResp_now /\
+  C15_nb_strict XResp_now /\
+  C15_mirror_exact XResp_now /\
+  C15_mirror_iff XResp_now.
+Proof. split; [exact (xresp_c15_inv)|]. split; [exact (xresp_c15_nb_strict)|]. split; [exact (xresp_c15_mirror_exact)|]. exact (xresp_c15_mirror_iff). Qed.
+Print Assumptions xrespondent_c15_more.
+
+Theorem pair0_c15 :
+  C15_nb_immediate Pair0_now /\
+  C15_nb_possible Pair0_now /\
+  C15_mirror Pair0_now.
+Proof. split; [exact (pair_c15_nb_immediate PairModel.K0 C08_PAIR0_STOP_WRITABLE_FIXED C08_PAIR0_STALE_FIXED)|]. split; [exact (pair_c15_nb_possible PairModel.K0 C08_PAIR0_STOP_WRITABLE_FIXED C08_PAIR0_STALE_FIXED)|]. exact (pair_c15_mirror PairModel.K0 C08_PAIR0_STALE_FIXED). Qed.
+Print Assumptions pair0_c15.
+Definition pair0_nb_immediate : C15_nb_immediate Pair0_now := proj1 pair0_c15.
+Definition pair0_nb_succeeds_if_possible : C15_nb_possible Pair0_now := proj1 (proj2 pair0_c15).
+Definition pair0_poll_mirror : C15_mirror Pair0_now := proj2 (proj2 pair0_c15).
+
+(* pair0_reachable_invariant *)
+(* pair0_nb_eagain_only_where_blocking_waits *)
+(* pair0_poll_mirror_exact *)
+(* pair0_poll_mirror_iff *)
+Theorem pair0_c15_more :
+  C15_inv Pair0_now /\
+  C15_nb_strict Pair0_now /\
+  C15_mirror_exact Pair0_now /\
+  C15_mirror_iff Pair0_now.
+Proof. split; [exact (pair_c15_inv PairModel.K0 C08_PAIR0_STALE_FIXED)|]. split; [exact (pair_c15_nb_strict PairModel.K0 C08_PAIR0_STOP_WRITABLE_FIXED C08_PAIR0_STALE_FIXED)|]. split; [exact (pair_c15_mirror_exact PairModel.K0 C08_PAIR0_STALE_FIXED)|]. exact (pair_c15_mirror_iff PairModel.K0 C08_PAIR0_STALE_FIXED). Qed.
+Print Assumptions pair0_c15_more.
+
+Theorem pair1_c15 :
+  C15_nb_immediate Pair1_now /\
+  C15_nb_possible Pair1_now /\
+  C15_mirror Pair1_now.
+Proof. split; [exact (pair_c15_nb_immediate (PairModel.K1 false) C08_PAIR1_STOP_WRITABLE_FIXED C08_PAIR1_STALE_FIXED)|]. split; [exact (pair_c15_nb_possible (PairModel.K1 false) C08_PAIR1_STOP_WRITABLE_FIXED C08_PAIR1_STALE_FIXED)|]. exact (pair_c15_mirror (PairModel.K1 false) C08_PAIR1_STALE_FIXED). Qed.
+Print Assumptions pair1_c15.
+Definition pair1_nb_immediate : C15_nb_immediate Pair1_now := proj1 pair1_c15.
+Definition pair1_nb_succeeds_if_possible : C15_nb_possible Pair1_now := proj1 (proj2 pair1_c15).
+Definition pair1_poll_mirror : C15_mirror Pair1_now := proj2 (proj2 pair1_c15).
+
+(* pair1_reachable_invariant *)
+(* pair1_nb_eagain_only_where_blocking_waits *)
+(* pair1_poll_mirror_exact *)
+(* pair1_poll_mirror_iff *)
+Theorem pair1_c15_more :
+  C15_inv Pair1_now /\
+  C15_nb_strict Pair1_now /\
+  C15_mirror_exact Pair1_now /\
+  C15_mirror_iff Pair1_now.
+Proof. split; [exact (pair_c15_inv (PairModel.K1 false) C08_PAIR1_STALE_FIXED)|]. split; [exact (pair_c15_nb_strict (PairModel.K1 false) C08_PAIR1_STOP_WRITABLE_FIXED C08_PAIR1_STALE_FIXED)|]. split; [exact (pair_c15_mirror_exact (PairModel.K1 false) C08_PAIR1_STALE_FIXED)|]. exact (pair_c15_mirror_iff (PairModel.K1 false) C08_PAIR1_STALE_FIXED). Qed.
+Print Assumptions pair1_c15_more.
+
+Theorem pair1raw_c15 :
+  C15_nb_immediate Pair1raw_now /\
+  C15_nb_possible Pair1raw_now /\
+  C15_mirror Pair1raw_now.
+Proof. split; [exact (pair_c15_nb_immediate (PairModel.K1 true) C08_PAIR1_STOP_WRITABLE_FIXED C08_PAIR1_STALE_FIXED)|]. split; [exact (pair_c15_nb_possible (PairModel.K1 true) C08_PAIR1_STOP_WRITABLE_FIXED C08_PAIR1_STALE_FIXED)|]. exact (pair_c15_mirror (PairModel.K1 true) C08_PAIR1_STALE_FIXED). Qed.
+Print Assumptions pair1raw_c15.
+Definition pair1raw_nb_immediate : C15_nb_immediate Pair1raw_now := proj1 pair1raw_c15.
+Definition pair1raw_nb_succeeds_if_possible : C15_nb_possible Pair1raw_now := proj1 (proj2 pair1raw_c15).
+Definition pair1raw_poll_mirror : C15_mirror Pair1raw_now := proj2 (proj2 pair1raw_c15).
+
+(* pair1raw_reachable_invariant *)
+(* pair1raw_nb_eagain_only_where_blocking_waits *)
+(* pair1raw_poll_mirror_exact *)
+(* pair1raw_poll_mirror_iff *)
+Theorem pair1raw_c15_more :
+  C15_inv Pair1raw_now /\
+  C15_nb_strict Pair1raw_now /\
+  C15_mirror_exact Pair1raw_now /\
+  C15_mirror_iff Pair1raw_now.
+Proof. split; [exact (pair_c15_inv (PairModel.K1 true) C08_PAIR1_STALE_FIXED)|]. split; [exact (pair_c15_nb_strict (PairModel.K1 true) C08_PAIR1_STOP_WRITABLE_FIXED C08_PAIR1_STALE_FIXED)|]. split; [exact (pair_c15_mirror_exact (PairModel.K1 true) C08_PAIR1_STALE_FIXED)|]. exact (pair_c15_mirror_iff (PairModel.K1 true) C08_PAIR1_STALE_FIXED). Qed.
+Print Assumptions pair1raw_c15_more.
+
+(* pair_poll_mirror_pinned_refuted: the tree as pinned (repaired by 6a91792) *)
+Theorem pairs_c15_more :
+  (forall k fs, ~ C15_mirror (M_pair k false fs)).
+Proof. exact (pair_c15_mirror_refuted_pinned). Qed.
+Print Assumptions pairs_c15_more.
+
+(* bus_nb_immediate: holds since fix 6932118 (a refused send keeps its message) *)
+(* bus_nb_succeeds_if_possible_now: KNOWN unrepaired defect bus-nonblock-send-eagain: false of the source while BUS_SEND_NO_AIO_START = false *)
+(* bus_poll_mirror_now: KNOWN unrepaired defect bus-nonblock-send-eagain *)
+Theorem bus_c15 :
+  (forall raw, C15_nb_immediate (Bus_now raw)) /\
+  (forall raw, now BUS_SEND_NO_AIO_START (C15_nb_possible (Bus_now raw))) /\
+  (forall raw, now BUS_SEND_NO_AIO_START (C15_mirror (Bus_now raw))).
+Proof. split; [exact (fun raw => bus_c15_nb_immediate_keep BUS_SEND_NO_AIO_START raw)|]. split; [exact (fun raw => bus_c15_nb_possible_by_flag BUS_SEND_NO_AIO_START raw)|]. exact (fun raw => bus_c15_mirror_by_flag BUS_SEND_NO_AIO_START raw). Qed.
+Print Assumptions bus_c15.
+Definition bus_nb_immediate : forall raw, C15_nb_immediate (Bus_now raw) := proj1 bus_c15.
+Definition bus_nb_succeeds_if_possible_now : forall raw, now BUS_SEND_NO_AIO_START (C15_nb_possible (Bus_now raw)) := proj1 (proj2 bus_c15).
+Definition bus_poll_mirror_now : forall raw, now BUS_SEND_NO_AIO_START (C15_mirror (Bus_now raw)) := proj2 (proj2 bus_c15).
+
+(* bus_reachable_invariant *)
+(* bus_nb_recv_succeeds_if_possible *)
+(* bus_poll_mirror_recv *)
+(* bus_nb_immediate_holds_when_repaired *)
+(* bus_nb_succeeds_if_possible_holds_when_repaired *)
+(* bus_nb_eagain_only_where_blocking_waits_holds_when_repaired *)
+(* bus_poll_mirror_holds_when_repaired *)
+(* bus_poll_mirror_exact_holds_when_repaired *)
+(* bus_poll_mirror_iff_holds_when_repaired *)
+(* bus_nb_immediate_pinned_refuted: the tree as pinned: the refused send had already detached the message (repaired by 6932118) *)
+Theorem bus_c15_more :
+  (forall raw, C15_inv (Bus_now raw)) /\
+  (forall raw, C15_nb_recv_possible (Bus_now raw)) /\
+  (forall raw, C15_mirror_r (Bus_now raw)) /\
+  (forall keep raw, C15_nb_immediate (M_bus true keep raw)) /\
+  (forall keep raw, C15_nb_possible (M_bus true keep raw)) /\
+  (forall keep raw, C15_nb_strict (M_bus true keep raw)) /\
+  (forall keep raw, C15_mirror (M_bus true keep raw)) /\
+  (forall keep raw, C15_mirror_exact (M_bus true keep raw)) /\
+  (forall keep raw, C15_mirror_iff (M_bus true keep raw)) /\
+  (forall raw, ~ C15_nb_immediate (M_bus false false raw)).
+Proof. split; [exact (fun raw => bus_c15_inv BUS_SEND_NO_AIO_START C03_BUS_START_BEFORE_DETACH raw)|]. split; [exact (fun raw => bus_c15_nb_recv_possible BUS_SEND_NO_AIO_START C03_BUS_START_BEFORE_DETACH raw)|]. split; [exact (fun raw => bus_c15_mirror_r BUS_SEND_NO_AIO_START C03_BUS_START_BEFORE_DETACH raw)|]. split; [exact (bus_c15_nb_immediate)|]. split; [exact (bus_c15_nb_possible)|]. split; [exact (bus_c15_nb_strict)|]. split; [exact (bus_c15_mirror)|]. split; [exact (bus_c15_mirror_exact)|]. split; [exact (bus_c15_mirror_iff)|]. exact (bus_c15_nb_immediate_refuted_pinned). Qed.
+Print Assumptions bus_c15_more.
+
+(* ================================================================== the table: for every protocol the three clauses, for the source as it is now *)
+Theorem c15_table_now :
+  (C15_nb_immediate Req_now /\ C15_nb_possible Req_now /\ C15_mirror Req_now) /\
+  (C15_nb_immediate Rep_now /\ C15_nb_possible Rep_now /\ C15_mirror Rep_now) /\
+  (C15_nb_immediate XReq_now /\ C15_nb_possible XReq_now /\ C15_mirror XReq_now) /\
+  (C15_nb_immediate XRep_now /\ C15_nb_possible XRep_now /\ C15_mirror XRep_now) /\
+  (C15_nb_immediate Pub_now /\ C15_nb_possible Pub_now /\ C15_mirror Pub_now) /\
+  (C15_nb_immediate Sub_now /\ C15_nb_possible Sub_now /\ C15_mirror Sub_now) /\
+  (C15_nb_immediate XSub_now /\ C15_nb_possible XSub_now /\ C15_mirror XSub_now) /\
+  (C15_nb_immediate Push_now /\ C15_nb_possible Push_now /\ C15_mirror Push_now) /\
+  (C15_nb_immediate Pull_now /\ C15_nb_possible Pull_now /\ C15_mirror Pull_now) /\
+  (C15_nb_immediate Surv_now /\ C15_nb_possible Surv_now /\ C15_mirror Surv_now) /\
+  (C15_nb_immediate Resp_now /\ now C07_RESP_NB_FIXED (C15_nb_possible Resp_now) /\ now C07_RESP_NB_FIXED (C15_mirror Resp_now)) /\
+  (C15_nb_immediate XSurv_now /\ C15_nb_possible XSurv_now /\ C15_mirror XSurv_now) /\
+  (C15_nb_immediate XResp_now /\ C15_nb_possible XResp_now /\ C15_mirror XResp_now) /\
+  (C15_nb_immediate Pair0_now /\ C15_nb_possible Pair0_now /\ C15_mirror Pair0_now) /\
+  (C15_nb_immediate Pair1_now /\ C15_nb_possible Pair1_now /\ C15_mirror Pair1_now) /\
+  (C15_nb_immediate Pair1raw_now /\ C15_nb_possible Pair1raw_now /\ C15_mirror Pair1raw_now) /\
+  ((forall raw, C15_nb_immediate (Bus_now raw)) /\ (forall raw, now BUS_SEND_NO_AIO_START (C15_nb_possible (Bus_now raw))) /\ (forall raw, now BUS_SEND_NO_AIO_START (C15_mirror (Bus_now raw)))).
+Proof. split; [exact req_c15|]. split; [exact rep_c15|]. split; [exact xreq_c15|]. split; [exact xrep_c15|]. split; [exact pub_c15|]. split; [exact sub_c15|]. split; [exact xsub_c15|]. split; [exact push_c15|]. split; [exact pull_c15|]. split; [exact surveyor_c15|]. split; [exact respondent_c15|]. split; [exact xsurveyor_c15|]. split; [exact xrespondent_c15|]. split; [exact pair0_c15|]. split; [exact pair1_c15|]. split; [exact pair1raw_c15|]. exact bus_c15. Qed.
+Print Assumptions c15_table_now.
+
+(* ================================================================== non-vacuity: the hypotheses are satisfiable, both values occur *)
+Example req_reachable_nonvacuous : forall fx,
+  (exists s, reachable (M_req fx) s /\ poll_w (pm_poll (M_req fx) s) = Some true) /\
+  (exists s, reachable (M_req fx) s /\ poll_r (pm_poll (M_req fx) s) = Some true).
+Proof. intros fx. split; [exact (req_reachable_w_raised fx)|exact (req_reachable_r_raised fx)]. Qed.
+Example rep_reachable_nonvacuous :
+  (exists s, reachable (M_rep RepProofs.pf_repaired) s /\ poll_r (pm_poll (M_rep RepProofs.pf_repaired) s) = Some true) /\
+  (exists s, reachable (M_rep RepProofs.pf_repaired) s /\ poll_w (pm_poll (M_rep RepProofs.pf_repaired) s) = Some true).
+Proof. split; [exact rep_reachable_readable|exact rep_reachable_writable]. Qed.
+Example push_pull_reachable_nonvacuous :
+  (exists s, reachable M_push s /\ poll_w (pm_poll M_push s) = Some true) /\
+  (reachable M_push PushModel.push_init /\ poll_w (pm_poll M_push PushModel.push_init) = Some false) /\
+  (exists s, reachable M_pull s /\ poll_r (pm_poll M_pull s) = Some true).
+Proof. split; [exact push_reachable_raised|]. split; [exact push_reachable_lowered|exact pull_reachable_raised]. Qed.
+Example respondent_reachable_nonvacuous :
+  (exists s, reachable (M_resp RespondModel.rfix_all) s /\ poll_r (pm_poll (M_resp RespondModel.rfix_all) s) = Some true) /\
+  (exists s, reachable (M_resp RespondModel.rfix_all) s /\ pm_poll (M_resp RespondModel.rfix_all) s = mkPoll (Some false) (Some true)).
+Proof. split; [exact resp_reachable_r_raised|exact resp_reachable_w_raised]. Qed.
+Example surveyor_reachable_nonvacuous :
+  exists s, reachable (M_surv true) s /\ poll_r (pm_poll (M_surv true) s) = Some true.
+Proof. exact surv_reachable_raised. Qed.
+Example pollable_nonvacuous :
+  plb_readable (plb_run plb_init [PlRaise; PlGetFd]) = Some true /\
+  plb_readable (plb_run plb_init [PlGetFd; PlRaise; PlClear]) = Some false /\
+  plb_readable (plb_run plb_init [PlRaise; PlClear]) = None.
+Proof. repeat split. Qed.
+
+(* ================================================================== constants and repairs the statements above rest on *)
+Theorem c15_consts_match :
+  E_AGAIN = C15_NNG_EAGAIN /\ E_TIMEDOUT = C15_NNG_ETIMEDOUT /\ E_NOTSUP = C15_NNG_ENOTSUP /\ E_STATE = C15_NNG_ESTATE /\
+  E_CLOSED = C15_NNG_ECLOSED /\ E_PROTO = C15_NNG_EPROTO /\ E_NOMEM = C15_NNG_ENOMEM /\
+  C15_API_NONBLOCK_ZERO_TIMEOUT_EAGAIN = true /\ C15_AIO_START_REFUSES_ZERO_TIMEOUT = true /\
+  (* every repair the positive theorems need is in the source; the two recorded defects are the only flags allowed to be false *)
+  forallb (fun b => b)
+    [C04_REQ_RDCLR_FIXED; C04_REP_RCLOSE_FIXED; C04_REP_SAIO_FIXED; C04_REP_WBUSY_FIXED; C04_MSGQ_NB_FIXED; C04_MSGQ_RESIZE_FIXED;
+     C04_MSGQ_GET_RUNS_PUTQ; C05_SUB_UNSUB_CLEARS_POLL; C05_MSGQ_GET_TRIES_FIRST; C07_SURV_NBRECV_FIXED; C07_RESP_WBUSY_FIXED;
+     C07_RESP_RCLOSE_FIXED; C07_RESP_SBUSY_FIXED; C07_RESP_WOTHER_FIXED; C07_RESP_WSTALE_FIXED; C07_MSGQ_NB_FIXED; C07_MSGQ_RESIZE_FIXED;
+     C07_MSGQ_GET_RUNS_PUTQ; C08_PAIR0_STOP_WRITABLE_FIXED; C08_PAIR1_STOP_WRITABLE_FIXED; C03_BUS_START_BEFORE_DETACH] = true.
+Proof. repeat split. Qed.
+Print Assumptions c15_consts_match.
